@@ -362,6 +362,14 @@ ares_status_t ares_array_claim_at(void *dest, size_t dest_size,
   }
 
   arr->cnt--;
+
+  /* An emptied array restarts at the beginning of its allocation, otherwise
+   * offset can reach alloc_cnt after draining from the front and every later
+   * insert is rejected by the bounds checks in ares_array_move() */
+  if (arr->cnt == 0) {
+    arr->offset = 0;
+  }
+
   return ARES_SUCCESS;
 }
 
